@@ -251,6 +251,70 @@ def client_trace(tid, command, response):
         rig.close()
 
 
+def directed_traces(budget):
+    """Hand-written schedules for the corners of the retransmission loop and the lock
+    (reference-decoder double, so that '-' reaches the ack queue)."""
+    out = []
+
+    def run(tid, fn):
+        rig = R.Rig("ref", budget)
+        try:
+            fn(rig)
+            out.append(trace(tid, rig))
+        except Exception as e:
+            out.append(trace(tid, rig.events + [{"ev": "harness_exc", "error": type(e).__name__}]))
+        finally:
+            rig.close()
+
+    for k in range(0, budget + 3):
+        def nacks(rig, k=k):
+            rig.call(1, [97, 125])
+            rig.acquire(1)
+            for _ in range(k):
+                if rig._sender_status(1) != "wait":
+                    break
+                rig.peer([45])
+                rig.rx_byte()
+                rig.get(1)
+            if rig._sender_status(1) == "wait":
+                rig.peer([43])
+                rig.rx_byte()
+                rig.get(1)
+            # whatever happened, the next send must work (lock released)
+            rig.call(1, [98])
+            rig.acquire(1)
+            rig.get(1, timeout=True)
+        run("dir:nacks=%d:budget=%d" % (k, budget), nacks)
+
+    def contention(rig):
+        rig.call(1, [97])
+        rig.call(2, [98])
+        rig.acquire(2)
+        rig.peer([45, 43])
+        rig.rx_byte()
+        rig.get(2)
+        rig.rx_byte()
+        rig.get(2)
+        rig.acquire(1)
+        rig.peer([43])
+        rig.rx_byte()
+        rig.get(1)
+    run("dir:lock:budget=%d" % budget, contention)
+
+    def late_ack(rig):
+        # reply lost, sender times out, the late ack is taken by the next send
+        rig.call(1, [97])
+        rig.acquire(1)
+        rig.get(1, timeout=True)
+        rig.peer([43])
+        rig.rx_byte()
+        rig.call(1, [98])
+        rig.acquire(1)
+        rig.get(1)
+    run("dir:late-ack:budget=%d" % budget, late_ack)
+    return out
+
+
 def all_payloads(alphabet, maxlen):
     out = [[]]
     frontier = [[]]
@@ -874,7 +938,7 @@ class Engine:
             if th:
                 # other retry budgets for the retransmission loop (reference-decoder double)
                 for budget in (1, 3):
-                    extra = []
+                    extra = directed_traces(budget)
                     for k in range(300):
                         tid = "rand:ref:budget%d:%d" % (budget, k)
                         extra.append(_rec(lambda: random_trace(ctx, tid, "ref", "ref", budget, 40), tid))
@@ -901,7 +965,7 @@ class Engine:
     def generate(self, ctx, jobs, flags, capv, th):
         g_framing(ctx, jobs, flags, capv, 3 if th else 2)
         lim = dict(calls=3, peer=2, notif=1, nack=3, lost=1, spur=2, corrupt=1)
-        n = 400 if th else 60
+        n = 700 if th else 60
         g_simulate(ctx, jobs, flags, capv, "real", n, 45, "G simulate as-built model, real decoder", lim, (97, 125), (43,))
         g_simulate(ctx, jobs, [f for f in flags if f in HANDLER_FLAGS], capv, "ref", n, 45,
                    "G simulate as-built handler, reference-decoder double", lim, (97, 125), (43,))
@@ -921,10 +985,11 @@ class Engine:
             if rsp == "S05":
                 continue  # stop replies go to another queue: _send_command would wait for wall-clock time
             traces.append(_rec(lambda: client_trace("client:%d" % k, [ord(c) for c in cmd], [ord(c) for c in rsp]), "client:%d" % k))
+        traces += directed_traces(2)
         rng = ctx.rng
-        pairs = [(p, rng.choice(pls[:43])) for p in pls[: 15 if not th else 259]]
+        pairs = [(p, rng.choice(pls[:43])) for p in pls[: 15 if not th else 100]]
         traces += tcp_traces(ctx, pairs, 2 if not th else 4)
-        nrand = 1200 if th else 40
+        nrand = 700 if th else 40
         for k in range(nrand):
             for dec, prof in (("real", "clean"), ("real", "full"), ("ref", "ref"), ("ref", "refspur")):
                 tid = "rand:%s:%s:%d" % (dec, prof, k)
